@@ -397,8 +397,45 @@ pub fn disturbance_pass<T: Sync>(
             });
         }
     });
-    let total = (THREADS * rounds * len) as u64;
-    run.generator("items checked from 8 threads at once", "concurrent stress (not schedule-controlled)", None, total, total, "each thread walks the items from its own offset and runs an API disturbance every 24 checks; a property-based harness does not own the schedule, so this finds races only with the probability of the interleaving");
+    // hot sets: all threads hammer the same few items over and over (a race on one memo line, an
+    // entry that is only served from its third request)
+    let hot_rounds = 300usize;
+    let n_sets = 24usize.min(len);
+    if first.lock().unwrap().is_none() {
+        for set in 0..n_sets {
+            let hot: Vec<usize> = (0..8).map(|j| (set * 9973 + j * (len / 8 + 1) + j * j) % len).collect();
+            std::thread::scope(|sc| {
+                for k in 0..THREADS {
+                    let (first, hot) = (&first, &hot);
+                    sc.spawn(move || {
+                        for r in 0..hot_rounds {
+                            for j in 0..hot.len() {
+                                let i = hot[(j * (k + 1) + r) % hot.len()];
+                                let msg = match guard(|| check(&items[i])) {
+                                    Ok(Ok(())) => continue,
+                                    Ok(Err(m)) => m,
+                                    Err(p) => format!("panicked: {}", p),
+                                };
+                                let mut g = first.lock().unwrap();
+                                if g.is_none() {
+                                    *g = Some((i, msg));
+                                }
+                                return;
+                            }
+                            if r % 32 == 0 && first.lock().unwrap().is_some() {
+                                return;
+                            }
+                        }
+                    });
+                }
+            });
+            if first.lock().unwrap().is_some() {
+                break;
+            }
+        }
+    }
+    let total = (THREADS * rounds * len + THREADS * hot_rounds * 8 * n_sets) as u64;
+    run.generator("items checked from 8 threads at once", "concurrent stress (not schedule-controlled)", None, total, total, "each thread walks the items from its own offset and runs an API disturbance every 24 checks; then 24 hot sets of 8 items are hammered by all threads 300 times each; a property-based harness does not own the schedule, so this finds races only with the probability of the interleaving");
     if let Some((i, m)) = first.into_inner().unwrap() {
         let (clause, case, sig) = to_case(&items[i]);
         let id = run.id.clone();
